@@ -1,9 +1,12 @@
 #!/bin/bash
 # Applies every seeded change to /repo in turn, runs the quick tier of the checks named in its
 # meta.json, undoes the change, and prints one line per (change, check).
+# usage: run_seeded.sh [regex over the ids, default all]
 cd /verif
+filter=${1:-.}
 for d in seeded/*/; do
   sid=$(basename $d)
+  echo "$sid" | grep -Eq "$filter" || continue
   if python3 -c "import json,sys;sys.exit(0 if 'obsolete' in json.load(open('$d/meta.json')) else 1)"; then echo "$sid OBSOLETE (see meta.json)"; continue; fi
   checks=$(python3 -c "import json;print(' '.join(json.load(open('$d/meta.json'))['checks']))")
   if ! git -C /repo apply /verif/$d/patch.diff 2>/dev/null; then echo "$sid APPLY-FAILED"; continue; fi
